@@ -7,4 +7,4 @@ from harness import sub_common
 if __name__ == "__main__":
     base = sys.argv[1]
     spec = json.load(open(base + "/spec.json"))
-    sub_common._child(spec["graph"], spec["K"], spec["worker"], base, base + "/out.json")
+    sub_common._child(spec["graph"], spec["K"], spec["worker"], base, base + "/out.json", late=spec.get("late"))
